@@ -6,6 +6,7 @@ import (
 
 	"github.com/aperturerobotics/util/backoff"
 	"github.com/aperturerobotics/util/broadcast"
+	"github.com/aperturerobotics/util/verifhook"
 	cbackoff "github.com/cenkalti/backoff/v4"
 	"github.com/sirupsen/logrus"
 )
@@ -291,6 +292,7 @@ func (r *runningRoutine) execute(
 	exitedCh chan struct{},
 	waitCh <-chan struct{},
 ) {
+	verifhook.Go("routine.execute", r)
 	var err error
 	if waitCh != nil {
 		select {
